@@ -49,8 +49,29 @@ fn cases_of(plan: &Plan) -> Vec<(u64, Vec<(usize, usize)>)> {
             }
         }
     }
+    if THOROUGH.load(Ordering::Relaxed) {
+        for anchor in [0u64, plan.full_mask()] {
+            let enabled: Vec<usize> = (0..plan.leaves.len()).filter(|l| plan.leaf_enabled(*l, anchor)).collect();
+            let mut count = 0u64;
+            'outer: for (ai, a) in enabled.iter().enumerate() {
+                for b in &enabled[ai + 1..] {
+                    for i in 1..plan.leaves[*a].menu.len() {
+                        for j in 1..plan.leaves[*b].menu.len() {
+                            out.push((anchor, vec![(*a, i), (*b, j)]));
+                            count += 1;
+                            if count > 400_000 {
+                                break 'outer;
+                            }
+                        }
+                    }
+                }
+            }
+        }
+    }
     out
 }
+
+static THOROUGH: std::sync::atomic::AtomicBool = std::sync::atomic::AtomicBool::new(false);
 
 /// the corpus, described with base-mode (feature-free) schemas
 pub fn corpus() -> Vec<CSpace> {
@@ -156,6 +177,7 @@ pub fn corpus() -> Vec<CSpace> {
 pub fn run(ctx: &'static Ctx) {
     ctx.rule("state = (configuration, corpus case); the corpus is built from the members that exist without any feature: every member subset and every single value deviation of every request (decoded), every response (encoded), every bidirectional type (round trip) and the authenticator-data grid; every configuration's outcome must be identical to cfg-000's; non-trivial = every case");
     ctx.assume("outcomes are compared through a 64-bit FNV-1a hash of the decoded view text / encoded bytes; a differing case is re-evaluated in full by the replay");
+    THOROUGH.store(ctx.thorough(), Ordering::Relaxed);
     let out = std::env::var("CTAPMC_TRANSCRIPT").unwrap_or_else(|_| machinery_panic("C16 needs CTAPMC_TRANSCRIPT"));
     let spaces = corpus();
     let mut text = String::new();
@@ -185,6 +207,7 @@ pub fn run(ctx: &'static Ctx) {
 
 /// full outcome of one corpus case on this configuration (used by the orchestrator's replay)
 pub fn outcome(space: &str, index: u64) -> String {
+    THOROUGH.store(std::env::var("VERIF_TIER").map_or(false, |t| t == "thorough"), Ordering::Relaxed);
     let spaces = corpus();
     match spaces.iter().find(|s| s.name == space) {
         Some(s) if index < s.total => (s.eval)(index),
